@@ -1,4 +1,6 @@
 import PprofVerif.Lemmas.Combine
+import PprofVerif.Lemmas.ComposeCodec
+import PprofVerif.Lemmas.ComposeDiffBase
 /-!
 # C07 — combining and subtracting profiles is linear in every entry
 
@@ -25,6 +27,10 @@ only when the output is exactly the pinned model's.
 -/
 namespace PV.Props.C07
 open PV PV.Combine
+
+/-- `Sample` in this file is C07's `(stack key, values)` sample (the id-based `PV.Sample` of the
+profile model, imported for the composition with C01 at the end, is always written qualified). -/
+abbrev Sample := PV.Combine.Sample
 
 private def kA : StackKey := ⟨[1, 2], 0, false⟩
 private def kB : StackKey := ⟨[3, 2], 7, false⟩
@@ -255,5 +261,82 @@ theorem diffbase_total_spec (src b : Prof) (hsrc : ∀ s ∈ src, s.1.base = fal
 
 example : diffBaseTotal (col 0) (combine [[(kA, [50]), (kB, [4])], neg (setBase [(kA, [20]), (kB, [-5])])]) = 25 := by
   decide
+
+/-! ## composed with C01: a -diff_base result survives the protobuf round trip
+
+`-diff_base` results can be written with `-proto` and read back (by pprof itself, or by the web
+UI's `profileCopier`).  The bridge `ofProfile tag p` (`Model/CombineBridge.lean`) is the C07 view of
+an id-based profile: frames = location ids, `base` = `Sample.DiffBaseSample()` (label
+`pprof::base` has the value `true`), `tag` = any summary of the other attributes.  C01 says the
+round trip returns `normalize p`; the label value `true` is non-empty, so it survives, and the
+whole C07 view — hence every figure and the diff-base total — is unchanged. -/
+
+/-- **A -diff_base result written with the C01 codec and re-read has the same weight function and
+the same diff-base total.**  For every profile meeting C01's hypotheses and every tag function that
+does not tell a sample from its normal form: `serialize` succeeds, `ParseUncompressed` of the bytes
+returns a profile with the SAME C07 view (same stacks, same `pprof::base` marks, same values, in the
+same order), so every report figure and `computeTotal`'s diff-base total agree. -/
+theorem diffbase_proto_roundtrip (tag : PV.Sample → Nat) (htag : ∀ s, tag (Codec.Sample.normalize s) = tag s)
+    (p : Profile) (hv : p.Valid) (ha : p.unitsAligned = true) (hs : p.mapsSorted = true)
+    (hr : Codec.InRange p) (hz : ∀ x, Codec.preEncode p = .ok x → Codec.EncSizes x) :
+    ∃ b q, Codec.serialize p = .ok b ∧ Codec.parseUncompressed b = .ok q ∧
+      ofProfile tag q = ofProfile tag p ∧
+      (∀ sel φ, figure sel φ (ofProfile tag q) = figure sel φ (ofProfile tag p)) ∧
+      (∀ sel, diffBaseTotal sel (ofProfile tag q) = diffBaseTotal sel (ofProfile tag p)) := by
+  obtain ⟨b, h1, h2⟩ := Codec.parse_serialize_normalize p hv ha hs hr hz
+  have h3 := ofProfile_normalize tag htag p hs
+  exact ⟨b, _, h1, h2, h3, fun sel φ => by rw [h3], fun sel => by rw [h3]⟩
+
+/-- the same for ANY tag function, applied to the normal form of the sample (no hypothesis on the
+tag: `normalize` is idempotent on real maps). -/
+theorem diffbase_proto_roundtrip_normal_tag (tag : PV.Sample → Nat)
+    (p : Profile) (hv : p.Valid) (ha : p.unitsAligned = true) (hs : p.mapsSorted = true)
+    (hr : Codec.InRange p) (hz : ∀ x, Codec.preEncode p = .ok x → Codec.EncSizes x) :
+    ∃ b q, Codec.serialize p = .ok b ∧ Codec.parseUncompressed b = .ok q ∧
+      ofProfile (tag ∘ Codec.Sample.normalize) q = ofProfile (tag ∘ Codec.Sample.normalize) p := by
+  obtain ⟨b, h1, h2⟩ := Codec.parse_serialize_normalize p hv ha hs hr hz
+  exact ⟨b, _, h1, h2, ofProfile_normalize_normalTag tag p hs⟩
+
+/-- **The base samples still carry `pprof::base=true` after the round trip**: a base profile `pb`
+labelled by `SetLabel("pprof::base", ["true"])`, written and re-read, is — in the C07 view —
+exactly `setBase` of `pb`: every sample is marked, stacks and values are `pb`'s.  (`tag` ignores
+that label and does not tell a sample from its normal form.) -/
+theorem base_label_survives_roundtrip (tag : PV.Sample → Nat)
+    (htag : ∀ s, tag (Codec.Sample.normalize s) = tag s) (htag2 : ∀ s, tag (setBaseLabel s) = tag s)
+    (pb : Profile) (hv : (setBaseP pb).Valid) (ha : (setBaseP pb).unitsAligned = true)
+    (hs : (setBaseP pb).mapsSorted = true) (hr : Codec.InRange (setBaseP pb))
+    (hz : ∀ x, Codec.preEncode (setBaseP pb) = .ok x → Codec.EncSizes x) :
+    ∃ b q, Codec.serialize (setBaseP pb) = .ok b ∧ Codec.parseUncompressed b = .ok q ∧
+      ofProfile tag q = setBase (ofProfile tag pb) ∧
+      (∀ s ∈ ofProfile tag q, s.1.base = true) := by
+  obtain ⟨b, q, h1, h2, h3, _⟩ := diffbase_proto_roundtrip tag htag (setBaseP pb) hv ha hs hr hz
+  have h4 : ofProfile tag q = setBase (ofProfile tag pb) := by rw [h3, ofProfile_setBaseP tag htag2 pb]
+  refine ⟨b, q, h1, h2, h4, ?_⟩
+  intro s hs'
+  rw [h4] at hs'
+  unfold setBase at hs'
+  obtain ⟨t, _, rfl⟩ := List.mem_map.mp hs'
+  rfl
+
+/-- The hypothesis "label maps are real maps" is needed for the label to be read the same way
+before and after: with a duplicated key (impossible for a Go map) the first entry `pprof::base=[""]`
+hides the second `pprof::base=["true"]` before normalisation but not after. -/
+theorem isBase_normalize_needs_distinct_keys :
+    let s : PV.Sample := ⟨[1], [1], [(baseKey, [[]]), (baseKey, [trueStr])], [], []⟩
+    Graph.isBase s = false ∧ Graph.isBase (Codec.Sample.normalize s) = true := by
+  decide +kernel
+
+-- non-vacuity: a labelled base profile meeting every hypothesis; the constant tag and the tag
+-- "number of numeric label keys of the normal form" are admissible tag functions
+private def exBase : Profile :=
+  { sampleType := [⟨[99], [110]⟩], defaultSampleType := [], periodType := some ⟨[99], [110]⟩, period := 1,
+    samples := [⟨[1], [20], [([97], [[120]])], [], []⟩, ⟨[1], [-5], [], [], []⟩], mappings := [],
+    locations := [⟨1, 0, 16, [], false⟩], functions := [], comments := [], docURL := [], dropFrames := [],
+    keepFrames := [], timeNanos := 5, durationNanos := 1 }
+example : (setBaseP exBase).Valid ∧ (setBaseP exBase).unitsAligned = true ∧ (setBaseP exBase).mapsSorted = true ∧
+    ofProfile (fun _ => 0) (setBaseP exBase) = [(⟨[1], 0, true⟩, [20]), (⟨[1], 0, true⟩, [-5])] := by
+  decide +kernel
+example : (∀ s, (fun _ : PV.Sample => 0) (Codec.Sample.normalize s) = (fun _ : PV.Sample => 0) s) ∧
+    (∀ s, (fun _ : PV.Sample => 0) (setBaseLabel s) = (fun _ : PV.Sample => 0) s) := ⟨fun _ => rfl, fun _ => rfl⟩
 
 end PV.Props.C07
